@@ -60,10 +60,13 @@ pub fn gen_data2(rng: &mut Rng) -> Data2 {
 impl Data2 {
     pub fn load(&self) -> Db {
         let db = Db::new(RandomMode::Const(0.25));
+        self.load_into(&db);
+        db
+    }
+    pub fn load_into(&self, db: &Db) {
         db.create_table("t1", &["a", "b", "c", "d", "e"], &self.t1);
         db.create_table("t2", &["a", "f", "g"], &self.t2);
         db.create_table("t3", &["k", "h", "w"], &self.t3);
-        db
     }
 }
 
@@ -147,6 +150,23 @@ pub fn gen_sql(rng: &mut Rng) -> (String, bool) {
                 _ => (format!("SELECT {} FROM {}{where_}", aggs.join(", "), s.from), false),
             }
         }
+        // name resolution: aliases that shadow input columns, used in GROUP BY / ORDER BY / WHERE / HAVING; shadowed table names
+        7 if rng.chance(1, 2) => {
+            let col = *rng.pick(&["a", "b"]);
+            let other = if col == "a" { "b" } else { "a" };
+            let e = match rng.below(4) { 0 => format!("CASE WHEN {other} > 2 THEN 1 ELSE 0 END"), 1 => format!("{other} + 1"), 2 => format!("abs({other})"), _ => format!("CASE WHEN {col} > 3 THEN 1 ELSE 0 END") };
+            match rng.below(9) {
+                0 => (format!("SELECT {e} AS {col}, count(*) AS n FROM t1 GROUP BY {col}"), false),
+                1 => (format!("SELECT {e} AS {col}, sum(c) AS s FROM t1{where_} GROUP BY {col} HAVING count(*) > 0", where_ = if rng.chance(1, 2) { format!(" WHERE {col} > 2") } else { String::new() }), false),
+                2 => (format!("SELECT b AS a, a AS b FROM t1 ORDER BY a, b"), true),
+                3 => (format!("SELECT {e} AS {col}, {col} AS orig FROM t1 WHERE {col} > 3 ORDER BY {col}, orig"), true),
+                4 => (format!("SELECT t1.a AS b, t2.a AS a, t1.b AS c FROM t1 JOIN t2 ON t1.a = t2.a WHERE t1.b > 0 ORDER BY b, a, c"), true),
+                5 => (format!("SELECT t2.a AS a FROM (SELECT {e} AS a FROM t1 WHERE b > 0) AS t2"), false),
+                6 => (format!("WITH t2 AS (SELECT {e} AS a, d AS g FROM t1) SELECT a AS a, g AS g FROM t2"), false),
+                7 => (format!("SELECT {e} AS k, count(*) AS {col} FROM t1 GROUP BY k ORDER BY {col}, k"), true),
+                _ => (format!("SELECT {col} AS x, {e} AS {col} FROM t1 GROUP BY {col}, {other}"), false),
+            }
+        }
         // set operations
         7 => { let op = *rng.pick(&["UNION", "UNION ALL", "INTERSECT", "EXCEPT"]);
                (format!("SELECT a AS x, b AS y FROM t1{} {op} SELECT a AS x, a - 2 AS y FROM t2", if rng.chance(1, 2) { " WHERE b > 0" } else { "" }), false) }
@@ -200,10 +220,21 @@ fn orders_by_missing_column(rel: &Relation) -> bool {
     }
 }
 
+/// two select items without alias (or one of them and the HAVING clause) are the same expression: they get the same content-derived name
+fn duplicate_unnamed_items(sql: &str) -> bool {
+    use qrlew::ast;
+    let Ok(q) = parse(sql) else { return false };
+    let ast::SetExpr::Select(sel) = q.body.as_ref() else { return false };
+    let unnamed: Vec<String> = sel.projection.iter().filter_map(|i| match i { ast::SelectItem::UnnamedExpr(e) => Some(e.to_string()), _ => None }).collect();
+    let mut u = unnamed.clone(); u.sort(); u.dedup();
+    u.len() != unnamed.len() || sel.having.as_ref().map(|h| unnamed.contains(&h.to_string())).unwrap_or(false)
+}
+
 pub fn eval(case: &J) -> Outcome {
     let mut out = Outcome::new();
     let sql = case["sql"].as_str().unwrap();
     let mut cls = query_class(sql);
+    if duplicate_unnamed_items(sql) { cls = "duplicate-unnamed-items".to_string(); }
     out.tag(&format!("class={cls}"));
     let rels = world2();
     let rel = match guarded(|| { let q = parse(sql).map_err(|e| e.to_string())?; Relation::try_from(QueryWithRelations::new(&q, &rels)).map_err(|e| e.to_string()) }) {
@@ -320,6 +351,9 @@ pub fn gen_c08x(rng: &mut Rng, _k: usize, _tier: &str) -> J {
         (format!("SELECT a AS x FROM t1 UNION ALL SELECT a AS x FROM t2 ORDER BY x DESC LIMIT {}", rng.range(0, 5)), true),
         (format!("SELECT a AS x FROM t1 INTERSECT SELECT a AS x FROM t2 ORDER BY x LIMIT {} OFFSET 1", rng.range(1, 3)), true),
         ("SELECT * FROM t1 JOIN t2 USING (a)".to_string(), false),
+        ("SELECT b, count(a) > 2 FROM t1 GROUP BY b HAVING count(a) > 2".to_string(), false),
+        ("SELECT b, sum(c), sum(c) FROM t1 GROUP BY b".to_string(), false),
+        ("SELECT a + b, a + b FROM t1".to_string(), false),
         ("SELECT a AS a, t1.b AS b1, t2.b AS b2 FROM t1 LEFT JOIN t2 USING (a)".to_string(), false),
         ("SELECT a AS a FROM t1 NATURAL JOIN t2".to_string(), false),
         ("SELECT t1.a AS a, t3.k AS k FROM t1 JOIN t2 ON t1.a = t2.a JOIN t3 ON t1.e = t3.k".to_string(), false),
